@@ -75,6 +75,8 @@ class VOpaque:
         self.args = list(args)
 
     def canon(self):
+        if not self.args:
+            return self.name
         return f"{self.name}({', '.join(canon(a) for a in self.args)})"
 
     def __repr__(self):
@@ -84,6 +86,11 @@ class VOpaque:
 class VIter:
     def __init__(self, items):
         self.items = list(items)
+
+
+class VSymIter:
+    def __init__(self, sym):
+        self.sym = sym
 
 
 class VClosure:
@@ -121,9 +128,14 @@ UNIT = VUnit()
 
 def canon(v):
     if isinstance(v, Poly):
+        n = v.norm()
+        if len(n) == 1:
+            (m, c), = n.items()
+            if c == 1 and len(m) == 1 and m[0][1] == 1:
+                return m[0][0]          # a single variable: print its name (same text as Sym / VOpaque)
         return "P" + v.canon()
     if isinstance(v, Sym):
-        return "P" + S(v.path).canon()
+        return v.path
     if isinstance(v, int):
         return f"int:{v}"
     if isinstance(v, VLabel):
@@ -356,6 +368,8 @@ class Interp:
         last2 = "::".join(segs[-2:])
         if last2 in self.consts:
             return self.consts[last2]
+        if segs[0] in ("Error", "PlonkVersion") or (len(segs) >= 2 and segs[-2] in ("Error", "PlonkVersion")):
+            return VOpaque(last2)
         self.fail(e, f"unknown path `{p}`")
 
     def e_unary(self, e, env):
@@ -517,9 +531,32 @@ class Interp:
             if len(st) == 1 and st[0]["k"] == "expr" and st[0]["expr"]["k"] == "return":
                 rv = self.expr(st[0]["expr"]["e"], env)
                 if isinstance(rv, VErr):
-                    self.ctx.exits.append(("err_if", canon(c), rv.what))
+                    self.ctx.exits.append(("err_if", c, rv.what))
                     return UNIT
         self.fail(e, "branch on a symbolic value")
+
+    def e_match(self, e, env):
+        v = self.expr(e["e"], env)
+        if not isinstance(v, (VOpaque, bool, int)):
+            self.fail(e, "match on a symbolic value")
+        for arm in e["arms"]:
+            if arm["guard"] is not None:
+                self.fail(e, "match guard")
+            if self.pat_matches(arm["pat"], v, e):
+                return self.expr(arm["body"], env)
+        self.fail(e, "no match arm applies")
+
+    def pat_matches(self, pat, v, node):
+        k = pat["k"]
+        if k == "or":
+            return any(self.pat_matches(c, v, node) for c in pat["cases"])
+        if k == "wild":
+            return True
+        if k == "path" and isinstance(v, VOpaque) and not v.args:
+            return "::".join(pat["path"].split("::")[-2:]) == v.name
+        if k == "lit" and isinstance(v, (bool, int)):
+            return pat["text"] == str(v).lower()
+        self.fail(node, f"pattern {k} in match")
 
     def e_return(self, e, env):
         v = self.expr(e["e"], env) if e["e"] is not None else UNIT
@@ -545,6 +582,8 @@ class Interp:
         v = self.expr(e["e"], env)
         if isinstance(v, int):
             return v
+        if isinstance(v, (Sym, VOpaque)) and e["ty"].replace(" ", "") in ("u64", "usize"):
+            return v   # usize <-> u64 is lossless on the 64-bit target (stated assumption)
         self.fail(e, "cast of symbolic value")
 
     def e_macro(self, e, env):
@@ -609,6 +648,10 @@ class Interp:
         m = e["m"]
         recv = self.expr(e["recv"], env)
         args = [self.expr(a, env) for a in e["args"]]
+        for key in self.method_keys(e, recv, m):
+            if key in self.contracts:
+                self.calls.append(key)
+                return self.contracts[key](self, recv, args)
         # ---- scalar methods
         if m == "square" and not args:
             p = as_poly(recv)
@@ -622,6 +665,8 @@ class Interp:
                     return VIter(recv.items)
                 if isinstance(recv, VRange):
                     return VIter(list(range(recv.lo, recv.hi)))
+                if isinstance(recv, Sym):
+                    return VSymIter(recv)
                 self.fail(e, f".{m}() on symbolic collection")
             if m == "to_vec" and isinstance(recv, VArr):
                 return VArr(recv.items, "vec")
@@ -651,6 +696,22 @@ class Interp:
             return VArr(recv.items, "vec")
         if m == "len" and isinstance(recv, (VArr, VIter)):
             return len(recv.items)
+        if m == "len" and isinstance(recv, Sym) and not args:
+            return VOpaque("len", [recv])
+        if m == "for_each" and isinstance(recv, VSymIter) and isinstance(args[0], VClosure):
+            # `xs.iter().for_each(|x| B)` over a slice of unknown length: B is executed once on the generic
+            # element xs[*]; its transcript events are recorded as ONE event "for every element, in order".
+            saved = self.ctx.log
+            self.ctx.log = []
+            self.call_closure(args[0], [Sym(recv.sym.path + "[*]")])
+            sub = tuple(self.ctx.log)
+            self.ctx.log = saved
+            self.ctx.event("for_each_in_order", recv.sym.path, sub)
+            return UNIT
+        if m == "for_each" and isinstance(recv, VIter) and isinstance(args[0], VClosure):
+            for x in recv.items:
+                self.call_closure(args[0], [x])
+            return UNIT
         # ---- vec / slice mutation
         if m == "push" and isinstance(recv, VArr):
             recv.items.append(args[0])
@@ -861,6 +922,16 @@ def compare(a, b, seed):
             cex = {"symbols": {k: hex(v) for k, v in env.items()}, "code_value": hex(pa.evaluate(_fill(env, pa))),
                    "contract_value": hex(pb.evaluate(_fill(env, pb)))}
         return False, f"code computes {pa.show(8)}\ncontract says {pb.show(8)}\ndifference {d.show(8)}", cex
+    if isinstance(a, VOpaque) and isinstance(b, VOpaque):
+        if a.name != b.name or len(a.args) != len(b.args):
+            return False, f"code: {a.name}/{len(a.args)}  contract: {b.name}/{len(b.args)}", None
+        return compare(list(a.args), list(b.args), seed)
+    if isinstance(a, (VArr, VIter, VTuple)) and isinstance(b, (VArr, VIter, VTuple)):
+        return compare(list(a.items), list(b.items), seed)
+    if isinstance(a, tuple) and isinstance(b, tuple):
+        return compare(list(a), list(b), seed)
+    if isinstance(a, VOk) and isinstance(b, VOk):
+        return compare(a.v, b.v, seed)
     if isinstance(a, list) and isinstance(b, list):
         if len(a) != len(b):
             return False, f"sequence length {len(a)} (code) vs {len(b)} (contract);\ncode: {a[:40]}\ncontract: {b[:40]}", None
